@@ -454,3 +454,31 @@ def a_false_start_value_is_still_a_value(ctx):
         ctx.ok(f'{g.qualname}:waiting values taken from writeDict', g.node, f'{sorted(popped)} compared with the sentinel', g)
     if not n:
         raise AnchorMissing('no value taken from self.writeDict in writeInitParams')
+
+
+@rule('C10.R12', min_instances=1)
+def a_required_value_is_asked_for_before_any_default_is_taken(ctx):
+    """Module._handle_writes (and its helpers): where a parameter got no value, the start value is taken from a default -
+    `pobj.value = pobj.default`.  Every such store is dominated by the test of `needscfg`, so that a parameter that REQUIRES a
+    configured value is reported as missing whether or not a default exists; a guard clause that takes the default first
+    lets a module with a missing required value be created silently"""
+    m = ctx.m
+    hw = m.method(roles.MODULE, '_handle_writes', inherited=False)
+    n = 0
+    units = [hw] + [h for site, h in helper_methods_called(m, hw)]
+    tested = False
+    for g in units:
+        cfg = CFG(g.node, m, g.module)
+        tests = [t.id for t in cfg.nodes if t.kind == 'test' and any(isinstance(x, ast.Attribute) and x.attr == 'needscfg' for x in ast.walk(t.ast))]
+        stores = [s for t_, v, s in attr_stores(g.node) if t_.attr == 'value' and dotted(t_.value) != 'self'
+                  and any(isinstance(x, ast.Attribute) and x.attr == 'default' for x in ast.walk(v))]
+        tested |= bool(tests)
+        for s in stores:
+            n += 1
+            ctx.analysed(g)
+            ok = bool(tests) and all(cfg.dominates(tests, i) for i in cfg.node_of(s))
+            ctx.check(ok, f'{g.qualname}:needscfg is asked before the default is taken', s, 'the needscfg test dominates the store of the default',
+                      f'`{src(s)}` can be reached without the test of `needscfg`: a parameter that requires a configured value and happens to have a '
+                      'default starts with that default, nothing is appended to self.errors and the module is created and registered', g)
+    if not n or not tested:
+        raise AnchorMissing('the needscfg test / the store of the default value not found in _handle_writes and its helpers')
